@@ -82,6 +82,13 @@ class Journal:
         os.lseek(self.fd, 0, os.SEEK_SET)
         os.write(self.fd, (json.dumps(case) + '\n').encode())
 
+    def log_op(self, i, op):
+        """incremental cases (generate-while-executing): the operation itself is journalled
+        before it is applied"""
+        self._open()
+        os.write(self.fd, ('O' + json.dumps(op) + '\n').encode())
+        os.write(self.fd, b'B%d\n' % i)
+
     def begin_op(self, i):
         self._open()
         os.write(self.fd, b'B%d\n' % i)
@@ -109,16 +116,25 @@ class Journal:
         except ValueError:
             return None
         inflight = None
+        ops = []
         for ln in lines[1:]:
-            if ln.startswith('B'):
+            if ln.startswith('O'):
+                try:
+                    ops.append(json.loads(ln[1:]))
+                except ValueError:
+                    pass
+            elif ln.startswith('B'):
                 inflight = int(ln[1:])
             elif ln.startswith('E'):
                 inflight = None
+        if ops and isinstance(case, dict) and not case.get('ops'):
+            case['ops'] = ops
         return {'case': case, 'inflight_op': inflight}
 
 
 class NullJournal:
     def begin_case(self, case): pass
+    def log_op(self, i, op): pass
     def begin_op(self, i): pass
     def end_op(self, i): pass
     def end_case(self): pass
@@ -257,6 +273,8 @@ def _worker_init(engine_name, scratch):
 
 def _unit_entry(seed, tier, r, jpath):
     eng = _W['engine']
+    if getattr(eng, 'CRASHES_ARE_VERDICTS', False):
+        faulthandler.disable()      # the journal, not a traceback on stderr, reports the crash
     jr = Journal(jpath)
     return eng.run_unit(seed, tier, r, jr)
 
@@ -284,6 +302,8 @@ def execute_case(engine, case, scratch, timeout=120.0):
         pass
 
     def go():
+        if getattr(engine, 'CRASHES_ARE_VERDICTS', False):
+            faulthandler.disable()
         jr = Journal(jpath)
         jr.begin_case(case)
         return engine.execute(case, jr)
@@ -310,6 +330,7 @@ def crash_violation(engine, signame, inflight, case):
     sig = {'oracle': 'interpreter-crash', 'signal': signame, 'op': opname}
     if hasattr(engine, 'crash_sig'):
         sig.update(engine.crash_sig(case, inflight) or {})
+    opname = sig.get('op')
     return {'oracle': 'interpreter-crash', 'klass': 'interpreter-crash:%s:%s' % (signame, opname),
             'sig': sig, 'detail': 'interpreter died with %s in operation #%s (%s)' % (signame, inflight, opname)}
 
